@@ -661,9 +661,8 @@ def oracle(ctx):
                 report(sig, "both-orders", f"both orders accepted but the final claims differ: {witness!r}", witness)
         else:
             ctx.count("pairs_both_rejected")
-            inp_involved = any(kind_of(r).endswith("inp") or "inp" in kind_of(r) for r in (r1, r2))
             tree_tree = r1[0] == "tree" and r2[0] == "tree"
-            if pa != pb and not inp_involved and not tree_tree:
+            if pa != pb and not tree_tree:
                 sig = "pair-message-differs:" + "+".join(sorted({kind_of(r1), kind_of(r2)}))
                 report(sig, "both-orders-message",
                        f"rejected in both orders with different messages: {witness!r}", witness)
